@@ -139,6 +139,11 @@ func (s *LinearState) Load(ctx *Context) error {
 	if err != nil {
 		return err
 	}
+	if s.addHook != nil {
+		// The hook may call back into this state, which is locked.
+		s.withPrivilege(ctx)
+		defer s.withoutPrivilege(ctx)
+	}
 	s.Facts = make(map[string]RawFact, len(pairs))
 	for _, pair := range pairs {
 		id := string(pair.K)
@@ -148,6 +153,15 @@ func (s *LinearState) Load(ctx *Context) error {
 		if err != nil {
 			Log(DEBUG, ctx, "LinearState.Load", "error", err, "js", string(js))
 			return err
+		}
+		if s.addHook != nil {
+			// As IndexedState.Load does (through add): let the add
+			// hook see loaded facts, so that a non-persistent cron
+			// gets the location's scheduled rules registered again.
+			if err := s.addHook(ctx, s, id, m, true); err != nil {
+				Log(ERROR, ctx, "LinearState.Load", "state", s.Name, "error", err, "when", "addHook", "id", id)
+				return err
+			}
 		}
 		s.Facts[id] = RawFact{m, js}
 	}
